@@ -127,7 +127,7 @@ inductive Ctor
   | map_array | lower_case | filter_array | unique_array | array_sub | array_and | filter_mapping | map_mapping
   | keys | values | allocate_mapping | map_compose | map_compose_eq | save_array | save_string | save_mapping
   | save_nested | copy_nested | restore_nested | restore_array | restore_mapping | regexp | reg_assoc | sprintf_pad
-  | sprintf | unique_mapping | save_nested_map
+  | sprintf | unique_mapping | save_nested_map | save_depth | save_depth_map
   deriving Repr, DecidableEq
 
 def Ctor.ofName (s : String) : Option Ctor :=
@@ -183,6 +183,8 @@ def Ctor.ofName (s : String) : Option Ctor :=
   | "sprintf" => some .sprintf
   | "unique_mapping" => some .unique_mapping
   | "save_nested_map" => some .save_nested_map
+  | "save_depth" => some .save_depth
+  | "save_depth_map" => some .save_depth_map
   | _ => none
 
 /-- which limit bounds the result of a constructor -/
@@ -191,7 +193,7 @@ def limitOfC (lim : Limits) : Ctor → Int
   | .allocate_buffer | .add_buffer => lim.maxBuffer
   | .map_insert | .map_aggregate | .map_add | .copy_mapping | .allocate_mapping | .filter_mapping | .map_mapping | .map_compose | .map_compose_eq | .restore_mapping | .unique_mapping => lim.maxMapping
   -- nesting depths reported by the LPC side: bounded by MAX_SAVE_SVALUE_DEPTH (copy, and restore since c9a3442)
-  | .copy_nested | .restore_nested => (NV.Gen.C04.maxSaveDepth : Int)
+  | .copy_nested | .restore_nested | .save_depth | .save_depth_map => (NV.Gen.C04.maxSaveDepth : Int)
   | _ => lim.maxString
 
 /-- by name, as the line judge needs it (a name that is not a constructor is judged as a string) -/
